@@ -16,9 +16,11 @@ import uuid  # noqa: F401
 import c09_gen as G
 import impl
 import lib
+import ginspecttie
 
 COQ_TARGETS = ["theories/Model/GraphEq.vo", "theories/Proofs/GraphLemmas.vo", "theories/Proofs/GraphTermination.vo",
                "theories/Proofs/TopoLemmas.vo", "theories/Proofs/GraphAcyclic.vo", "theories/Proofs/GraphWeight.vo"]
+COQ_TARGETS = COQ_TARGETS + [t for t in ginspecttie.COQ_TARGETS if t not in COQ_TARGETS]
 THEOREMS = ["C09_terminates", "C09_order", "C09_flags", "C09_string_alias", "C09_denotes",
             "C09_input_forms", "C09_acyclic", "C09_acyclic_rank", "C09_terminates_closed"]
 FINDINGS = os.path.join(lib.VERIF, "findings.d", "C09.json")
@@ -90,6 +92,39 @@ def observe(case):
     return live, root, nodes
 
 
+def run_history(case, on_call):
+    """Run a history case (c09_gen: operation histories) step by step in this process, clearing the caches only
+    ONCE, before the first step.  on_call(live, index, step, snap, root, nodes | exception, earlier) is called right
+    after every call step, while the environment still is as the call saw it: snap is the single-call case that
+    describes that environment, earlier the list object static_order returned when the same annotation was asked
+    before (None: not asked before, or the call is itertypes, which is not memoised)."""
+    from typelib import graph
+    live = G.LiveHistory(case)
+    impl.clear_caches()
+    memo: dict = {}
+    for idx, step in enumerate(case["history"]):
+        if step["op"] == "define":
+            live.define(step["ids"])
+        elif step["op"] == "annotate":
+            live.annotate(step)
+        else:
+            snap = live.snapshot(step["root"], f"{case['tag']}@{idx}")
+            root = live.obj(step["root"])
+            fn = graph.static_order if step["fn"] == "static_order" else graph.itertypes
+            try:
+                nodes = with_alarm(30, lambda: list(fn(root)) if step["fn"] == "itertypes" else fn(root))
+            except _Timeout:
+                nodes = TimeoutError("no result within 30 s")
+            except Exception as e:  # noqa: BLE001
+                nodes = e
+            key = G.freeze(step["root"])
+            earlier = memo.get(key) if step["fn"] == "static_order" else None
+            on_call(live, idx, step, snap, root, nodes, earlier)
+            if step["fn"] == "static_order" and key not in memo and not isinstance(nodes, BaseException):
+                memo[key] = nodes
+    return live
+
+
 def emit_obs(live: G.Live, nodes) -> tuple[str | None, str]:
     """Coq term of the observation; (None, reason) when a node carries an annotation unknown to the case."""
     if isinstance(nodes, BaseException):
@@ -148,6 +183,33 @@ def case_stream(rng: random.Random, tier: str):
         yield G.random_case(rng, depth=rng.choice([1, 2, 3, 3]))
 
 
+def history_stream(rng: random.Random, tier: str):
+    """Operation histories over graph.static_order in which the class environment changes between calls:
+    late definition of a referenced class (every digraph over 2 classes x both definition orders x priming by
+    static_order / itertypes, plain and inside a container; random ones over 3-4 classes), members added to or
+    retyped on a class after its first use, and random mixtures of both."""
+    thorough = tier == "thorough"
+    for mask in range(16):
+        for order in ((0, 1), (1, 0)):
+            primings = [("plain", "static_order"), (rng.choice(G.ROOT_KINDS[1:]), rng.choice(["static_order", "itertypes"]))]
+            if thorough:
+                primings += [(k, fn) for k in G.ROOT_KINDS[1:] for fn in ("static_order", "itertypes")]
+            for pk, fn in primings:
+                yield G.history_late_case(2, mask, order, 1, pk, rng, prime_fn=fn)
+    for mask in range(16):      # nothing changes between the calls: several calls in one process, caches kept
+        yield G.history_late_case(2, mask, (mask % 2, 1 - mask % 2), 2, rng.choice(G.ROOT_KINDS), rng)
+    for i in range(600 if thorough else 50):
+        n = rng.choice([3, 3, 4])
+        order = list(range(n))
+        rng.shuffle(order)
+        yield G.history_late_case(n, rng.randrange(1 << (n * n)), tuple(order), rng.randrange(1, n),
+                                  rng.choice(G.ROOT_KINDS), rng, prime_fn=rng.choice(["static_order"] * 3 + ["itertypes"]))
+    for i in range(500 if thorough else 45):
+        yield G.history_annotate_case(rng, rng.choice([1, 2, 2, 3]))
+    for i in range(500 if thorough else 40):
+        yield G.history_random_case(rng, rng.choice([2, 3, 3, 4]))
+
+
 def corpus_cases():
     d = os.path.join(lib.VERIF, "corpus", "C09")
     out = []
@@ -178,6 +240,9 @@ def thaw_case(c):
     c["root"] = thaw(c["root"])
     c["named"] = [thaw(x) for x in c.get("named", [])]
     c["classes"] = [dict(k, fields=[(f, thaw(t)) for f, t in k["fields"]]) for k in c["classes"]]
+    if "history" in c:
+        c["history"] = [dict(st, **({"root": thaw(st["root"])} if "root" in st else {}),
+                             **({"type": thaw(st["type"])} if "type" in st else {})) for st in c["history"]]
     return c
 
 
@@ -191,36 +256,81 @@ HDR = ("From Coq Require Import List String.\nImport ListNotations.\n"
 
 def correspond(run: lib.Run):
     rng = random.Random(run.seed)
-    cases = corpus_cases() + list(case_stream(rng, run.tier))
+    cases = corpus_cases() + list(case_stream(rng, run.tier)) + list(history_stream(random.Random(run.seed + 3), run.tier))
     dist: dict = {}
     coq_cases, descs, ambiguous = [], [], 0
+
+    def bump(d, key, by=1):
+        d[key] = d.get(key, 0) + by
+
+    def keep(desc, term, counts):
+        descs.append(desc)
+        coq_cases.append(term)
+        for k, v in counts.items():
+            bump(dist, k, v)
+
+    def emit(case, snap, live, root_desc, nodes, extra=None):
+        """(description, Coq case term | None, distribution counts) of one observed call"""
+        term, why = emit_obs(live, nodes)
+        counts: dict = {}
+        bump(counts, case["tag"].split(":")[0])
+        if not isinstance(nodes, BaseException):
+            bump(counts, "cyclic_nodes", sum(1 for n in nodes if n.cyclic))
+            bump(counts, "nodes", len(nodes))
+        else:
+            bump(counts, "raised")
+        desc = {"tag": snap["tag"], "root": G.src(case, root_desc, G.MOD_A) if root_desc[0] != "ref" else repr(root_desc),
+                "case": case, "observed": [repr(n) for n in nodes] if not isinstance(nodes, BaseException) else repr(nodes),
+                "source": dict(live.source)}
+        desc.update(extra or {})
+        if term is None:
+            desc["error"] = why
+        else:
+            term = f"({G.coq_env(snap)}, {G.coq(root_desc)}, {term})"
+        return desc, term, counts
+
     for case in cases:
+        if "history" in case:
+            # every call of the history that is not answered from static_order's memo is one model case: the model
+            # is evaluated on the environment AS IT IS at that call
+            got = []
+
+            def on_call(live, idx, step, snap, root, nodes, earlier, case=case, got=got):
+                if earlier is not None:
+                    d, t, c = emit(case, snap, live, step["root"], nodes, {"call": idx})
+                    if nodes is earlier:
+                        got.append((None, None, {"history_memoised_calls": 1}))
+                    else:
+                        d["error"] = "an annotation asked before is not answered with the memoised list"
+                        got.append((d, None, c))
+                    return
+                d, t, c = emit(case, snap, live, step["root"], nodes, {"call": idx})
+                if live.reaches_unresolved(step["root"]):
+                    bump(c, "history_calls_through_unresolved_class")
+                if step["fn"] == "itertypes":
+                    bump(c, "history_itertypes_calls")
+                got.append((d, t, c))
+
+            live = run_history(case, on_call)
+            if live.ambiguous:
+                ambiguous += 1
+                continue
+            bump(dist, "histories")
+            for d, t, c in got:
+                if d is None:
+                    for k, v in c.items():
+                        bump(dist, k, v)
+                else:
+                    keep(d, t, c)
+            continue
         live, root, nodes = observe(case)
         if live.ambiguous:
             ambiguous += 1      # two spellings of one ==-class met in one case: outside the model's guard
             continue
-        term, why = emit_obs(live, nodes)
-        variant = case["tag"].split(":")[0]
-        dist[variant] = dist.get(variant, 0) + 1
-        if not isinstance(nodes, BaseException):
-            for n in nodes:
-                if n.cyclic:
-                    dist["cyclic_nodes"] = dist.get("cyclic_nodes", 0) + 1
-            dist["nodes"] = dist.get("nodes", 0) + len(nodes)
-        else:
-            dist["raised"] = dist.get("raised", 0) + 1
-        desc = {"tag": case["tag"], "root": G.src(case, case["root"], G.MOD_A) if case["root"][0] != "ref" else repr(case["root"]),
-                "case": case, "observed": [repr(n) for n in nodes] if not isinstance(nodes, BaseException) else repr(nodes),
-                "source": live.source}
-        descs.append(desc)
-        if term is None:
-            desc["error"] = why
-            coq_cases.append(None)
-        else:
-            coq_cases.append(f"({G.coq_env(case)}, {G.coq(case['root'])}, {term})")
+        keep(*emit(case, case, live, case["root"], nodes))
     dist["ambiguous_skipped"] = ambiguous
-    # shards of <= 400 cases
-    shard = 400
+    # shards of <= 450 cases
+    shard = 450
     files, index = {}, {}
     for s in range(0, len(coq_cases), shard):
         idx = [i for i in range(s, min(s + shard, len(coq_cases))) if coq_cases[i] is not None]
@@ -230,7 +340,7 @@ def correspond(run: lib.Run):
         files[name] = (HDR + "Definition cases : list gcase :=\n [ " + ";\n   ".join(coq_cases[i] for i in idx) +
                        " ].\nEval vm_compute in mismatches case_ok cases.\nEval vm_compute in mismatches case_seq_ok cases.\n")
         index[name] = idx
-    results = run.coq_eval_many(files, timeout=900, par=14)
+    results = run.coq_eval_many(files, timeout=900, par=16)
     bad = [i for i, c in enumerate(coq_cases) if c is None]
     seq_bad = []
     for name, res in results.items():
@@ -241,7 +351,7 @@ def correspond(run: lib.Run):
         bad += [index[name][j] for j in lib.parse_nat_list(res[0])]
         seq_bad += [index[name][j] for j in lib.parse_nat_list(res[1])]
     bad = sorted(set(bad))
-    nontriv = len({json.dumps(d["case"], sort_keys=True, default=str) for d in descs
+    nontriv = len({json.dumps([d["case"], d.get("call")], sort_keys=True, default=str) for d in descs
                    if isinstance(d["observed"], list) and len(d["observed"]) > 1})
     dist["graphlib_sequence_differs_from_kahn"] = len(seq_bad)
     run.record_corr("graph", len(descs), [dict(descs[i], case=None, source=None) | {"case_json": descs[i]["case"]} for i in bad],
@@ -250,7 +360,14 @@ def correspond(run: lib.Run):
         run.notes.append(f"kahn model did not reproduce graphlib's exact sequence on {len(seq_bad)} cases "
                          f"(first: {descs[seq_bad[0]]['tag']}); not an alarm while is_topo_order holds")
     run.samples.append({k: descs[0][k] for k in ("tag", "root", "observed")})
-    run._c09_mismatch_cases = [descs[i]["case"] for i in bad[:50]]
+    seen_ids, mm = set(), []
+    for i in bad:
+        if id(descs[i]["case"]) not in seen_ids:
+            seen_ids.add(id(descs[i]["case"]))
+            mm.append(descs[i]["case"])
+    run._c09_mismatch_cases = mm[:50]
+    # this model's own copies of the inspection predicates agree with the line-by-line Inspect model on the live tables
+    lib.run_tie(run, ginspecttie, streams=False)
 
 
 # ----------------------------------------------------------------------------------
@@ -317,10 +434,52 @@ def oracle(case, forms=True):
     """Direct reading of the C09 statement on graph.static_order.  Returns a list of failure dicts."""
     from typelib import graph
     from typelib.py import compat, refs
+    if "history" in case:
+        return oracle_history(case)
     live, root, nodes = observe(case)
     base = {"tag": case["tag"], "root": repr(root), "case": case}
     if live.ambiguous:
         return []
+    fails = check_nodes(base, live, root, nodes)
+    # input forms
+    if forms and not fails and not isinstance(nodes, BaseException):
+        fails += input_forms(case, live, root, nodes, base)
+    return fails
+
+
+def oracle_history(case):
+    """The statement's clauses on EACH static_order call of a history (c09_gen: operation histories).
+    Read in favour of the code:
+    * a call whose annotation reaches a class one of whose member annotations names a class that does not exist
+      yet is not judged (such a class is no annotation of U at that moment: its members are unevaluated text);
+    * an annotation asked before may be answered with the sequence it was answered with then (the memo;
+      "types don't change at runtime") -- anything else is judged like a first call, on the classes as they are;
+    * a call whose annotation reaches a dataclass / NamedTuple / TypedDict whose annotation table was edited after
+      the class statement is not judged (whether the edit changed its "fields" is ambiguous; the code goes by the
+      type hints, and the correspondence ties that); a plain class has no other definition of its fields than
+      its annotation table, so members added to / retyped on a plain class ARE judged;
+    * itertypes calls are not judged (the statement speaks of static_order); they only prime;
+    * the input-form clause is not tried inside a history (it would need calls of its own)."""
+    fails: list = []
+
+    def on_call(live, idx, step, snap, root, nodes, earlier):
+        if step["fn"] != "static_order":
+            return
+        if earlier is not None and not isinstance(nodes, BaseException) and sig(nodes) == sig(earlier):
+            return
+        if live.reaches_unresolved(step["root"]) or live.reaches_reannotated(step["root"]):
+            return
+        base = {"tag": case["tag"], "root": repr(root), "case": case, "call": idx,
+                "history": [G.show_step(case, st) for st in case["history"][:idx + 1]]}
+        fails.extend(check_nodes(base, live, root, nodes))
+
+    live = run_history(case, on_call)
+    return [] if live.ambiguous else fails
+
+
+def check_nodes(base, live, root, nodes):
+    """the clauses of the statement about ONE returned sequence (or exception)"""
+    from typelib.py import compat
     if isinstance(nodes, BaseException):
         return [dict(base, symptom="static_order-raises" if not isinstance(nodes, TimeoutError) else "static_order-hangs",
                      why=type(nodes).__name__, got=repr(nodes))]
@@ -392,9 +551,6 @@ def oracle(case, forms=True):
                 okref = ok and want is not None and same(val, want)
             if not okref:
                 fails.append(dict(base, symptom="string-alias-node-does-not-carry-its-body", why="", got=repr(n)))
-    # input forms
-    if forms and not fails:
-        fails += input_forms(case, live, root, nodes, base)
     return fails
 
 
@@ -497,6 +653,8 @@ def search(run: lib.Run, broken):
     step = max(1, -(-len(allcases) // budget))
     off = rng.randrange(step)
     pool += allcases[off::step][:budget]
+    # histories are the only cases with more than one call per process: all of them, always (no input forms: cheap)
+    pool += list(history_stream(random.Random(run.seed + 3), run.tier))
     fails, nontriv = [], 0
     for case in pool:
         if case["tag"].startswith("unresolvable"):
@@ -510,7 +668,7 @@ def search(run: lib.Run, broken):
     best = {}
     for x in fails:
         c = x["case"]
-        size = (len(c["classes"]), sum(len(k["fields"]) for k in c["classes"]), len(json.dumps(c["root"])))
+        size = (len(c["classes"]), x.get("call", 0), sum(len(k["fields"]) for k in c["classes"]), len(json.dumps(c["root"])))
         if x["key"] not in best or size < best[x["key"]][0]:
             best[x["key"]] = (size, x)
     out = [v[1] for v in sorted(best.values(), key=lambda v: v[0])]
@@ -536,8 +694,11 @@ def search(run: lib.Run, broken):
     run.search_stats["oracle"] = {
         "evaluations": len(pool), "distinct_nontrivial": nontriv, "failures": len(fails),
         "failure_kinds": sorted({x["key"] for x in fails}),
+        "histories": sum(1 for c in pool if "history" in c),
         "rule": "cases sampled evenly from the correspondence stream (all class digraphs, variants, random "
-                "annotations) + corpus + mismatching cases; non-trivial = has classes or a container/union root",
+                "annotations) + corpus + mismatching cases + every operation history (each static_order call of a "
+                "history judged on the classes as they are at that call); non-trivial = has classes or a "
+                "container/union root",
     }
     if kept:
         run.samples.append({"oracle_failure": {k: v for k, v in kept[0].items() if k != "case"}})
